@@ -35,6 +35,19 @@ def lean_list(items, f=lean_str) -> str:
     return "[" + ", ".join(f(i) for i in items) + "]"
 
 
+def _subst_annotated_recursive() -> bool:
+    """in helpers.substitute_type_params, the `if is_annotated(typ):` branch calls substitute_type_params again"""
+    import ast
+
+    tree = ast.parse((core.REPO / "mashumaro/core/meta/helpers.py").read_text())
+    for fn in ast.walk(tree):
+        if isinstance(fn, ast.FunctionDef) and fn.name == "substitute_type_params":
+            for st in fn.body:
+                if isinstance(st, ast.If) and "is_annotated" in ast.unparse(st.test):
+                    return any(isinstance(c, ast.Call) and isinstance(c.func, ast.Name) and c.func.id == "substitute_type_params" for b in st.body for c in ast.walk(b))
+    return False
+
+
 def _src(path: str) -> str:
     return (core.REPO / path).read_text()
 
@@ -274,6 +287,7 @@ def tables() -> dict:
             break
     t["variantRegisteredAfterBuild"] = after_build
     # parse_timezone: does the pattern have to match the WHOLE string (fullmatch) or may `$` stop before a trailing newline?
+    t["substAnnotatedRecursive"] = _subst_annotated_recursive()
     t["tzParseFullMatch"] = False
     for node in ast.walk(ast.parse(_src("mashumaro/core/helpers.py"))):
         if isinstance(node, ast.FunctionDef) and node.name == "parse_timezone":
@@ -339,6 +353,8 @@ def render(t: dict) -> str:
     L.append("/-- in the rescan loop of a discriminated union the variant's unpacker is built BEFORE its tag is registered -/")
     L.append("def variantRegisteredAfterBuild : Bool := " + ("true" if t["variantRegisteredAfterBuild"] else "false"))
     L.append("def tzParseFullMatch : Bool := " + ("true" if t["tzParseFullMatch"] else "false"))
+    L.append("/-- helpers.substitute_type_params: does the Annotated branch substitute inside the wrapped type (recursive call)? -/")
+    L.append("def substAnnotatedRecursive : Bool := " + ("true" if t["substAnnotatedRecursive"] else "false"))
     L.append("")
     L.append("end Mashu.Generated")
     return "\n".join(L) + "\n"
